@@ -266,9 +266,10 @@ func GenKeyID(r *mrand.Rand) (text, kind string) {
 	}
 	raw := func(k *keyid.KeyID) string { b, _ := json.Marshal(k); return string(b) }
 	marshal := func(k *keyid.KeyID) string {
-		s, err := k.Marshal()
-		if err != nil {
-			// the encoder under test refuses a KeyID the format allows: the text is still what a CA writes
+		var s string
+		var err error
+		if p, _ := core.Guard(func() { s, err = k.Marshal() }); p || err != nil {
+			// the encoder under test refuses a KeyID the format allows (or crashes): the text is still what a CA writes
 			return raw(k)
 		}
 		return s
